@@ -262,6 +262,8 @@ class Polyhedron(Shape3D):
             # polyhedron as it was rather than with unordered vertex sets as faces.
             self._faces, self._equations, self._neighbors = old_state
             raise
+        # The memoized edges refer to the faces before merging.
+        self.__dict__.pop("edges", None)
 
     @property
     def neighbors(self):
@@ -360,6 +362,9 @@ class Polyhedron(Shape3D):
                     elif edge[::-1] in current_edges:
                         break
                 visited_faces.append(neighbor)
+
+        # The memoized edges refer to the vertex order before sorting.
+        self.__dict__.pop("edges", None)
 
         # Now compute the signed area and flip all the orderings if the area is
         # negative.
